@@ -118,6 +118,18 @@ CLAIMED = {
          'id()); order independence additionally by all permutations on real signing.',
          NOTE_COMMON + 'Python object identity modelled by heap indices; signers deterministic (observed).',
          'Lean 4 proof (heap model + pure model) + differential correspondence on operation histories', '6/C13'),
+ 'C14': ('Kernel-checked theorems: the digest signed is double-SHA256 of Bitcoin Core\'s magic prefix (generated constant, tied by kernel evaluation), '
+         'the CompactSize of the UTF-8 byte length and the message, for every message; sign-then-verify for every key in [1,n-1], nonce, message and '
+         'both compressions: the header search returns the compact signature whose header names R\'s parity (27/28 or 31/32), it verifies against the '
+         'signer\'s address and message, and key recovery returns d*G (secp256k1 group law proved, no curve hypothesis in the _unconditional form; '
+         'hypotheses x(R) < n, r, s != 0, distinct addresses for distinct keys, and 2z + r d != 0 mod n when R has odd y - at that point the code raises, '
+         'as a kernel-evaluated witness and a forced-digest run on the real code show); soundness of verification for every triple: success implies '
+         'a 65-byte signature with header 27..35 whose (r, s) is ECDSA-valid for this message\'s digest under a key whose P2PKH address is the given '
+         'one; anything else is false or raises. Agreement of acceptance with a libsecp256k1-based recovery on forged triples (both directions) is by the '
+         'correspondence run (Spec recovery in Lean + coincurve as cross-oracle).',
+         NOTE_COMMON + 'python-ecdsa signing (its (r, s) is an input of the model), verify_digest and sympy sqrt_mod are parameters modelled by their '
+         'specification; completeness of verification (every libsecp256k1-accepted triple is accepted) is correspondence only (partial).',
+         'Lean 4 proof (hand model, third-party signer as parameter) + differential correspondence', '6/C14'),
 }
 REASONS_PENDING = 'check under construction in this session (DESIGN.md section 9 build order); will be claimed once its Lean theorems are proved and its correspondence run exists'
 
